@@ -3,6 +3,7 @@ From ZV.Common Require Import Base.
 From ZV.C18 Require Import Model ProofsQueue ProofsOrder ProofsProgress ProofsComplete ProofsPar ProofsStream.
 From ZV.C18 Require Import ModelFiber ProofsFiber ProofsFiberReduce.
 From ZV.C18 Require Import ModelPipe ProofsPipe ProofsPipeStream.
+From ZV.C18 Require Import ModelExec ProofsExec ProofsExec2.
 From Coq Require Import Permutation.
 Open Scope N_scope.
 
@@ -512,3 +513,130 @@ Check collector_timeout_not_early :
        /\ bc_buf b <> [] /\ timeout <= bc_now b - bc_last b) /\
     (bc_due timeout b = false -> bc_step maxb timeout b BCheck = (b, None)).
 Print Assumptions collector_timeout_not_early.
+
+(* The executor at the granularity of its atomic operations: several threads inside submit() (the fetch_add + capacity
+   probe, push_local and the global insertion are separate critical sections - a submission can lose the race and
+   is then rejected), every find_task critical section of every worker, active_tasks += 1, the task body,
+   total_executed += 1, active_tasks -= 1, the periodic and the public balance() - for every capacity, number of
+   workers, number of submitting threads and EVERY interleaving of these steps: queued + held by a worker + executed
+   is exactly the multiset of the submissions that returned Ok (no accepted task is lost or duplicated, no rejected
+   task is kept); with distinct identities nothing is held twice; when nothing is queued or held the executed list is
+   the accepted list up to order *)
+Theorem executor_conservation :
+  forall (cap : N) (nw nsub : nat) (steps : list xstep),
+    let x := xrun cap nw nsub steps in
+    Permutation (queued (x_e x) ++ x_held x ++ edone (x_e x)) (x_acc x) /\
+    (NoDup (map tid (x_acc x)) -> NoDup (map tid (queued (x_e x) ++ x_held x ++ edone (x_e x)))) /\
+    (queued (x_e x) = [] -> x_held x = [] -> Permutation (edone (x_e x)) (x_acc x)).
+Proof. exact executor_conservation_proof. Qed.
+Check executor_conservation :
+  forall (cap : N) (nw nsub : nat) (steps : list xstep),
+    let x := xrun cap nw nsub steps in
+    Permutation (queued (x_e x) ++ x_held x ++ edone (x_e x)) (x_acc x) /\
+    (NoDup (map tid (x_acc x)) -> NoDup (map tid (queued (x_e x) ++ x_held x ++ edone (x_e x)))) /\
+    (queued (x_e x) = [] -> x_held x = [] -> Permutation (edone (x_e x)) (x_acc x)).
+Print Assumptions executor_conservation.
+
+(* ... and in every reachable state the statistics mean what they say: active_tasks = number of workers between
+   active_tasks += 1 and active_tasks -= 1, total_executed + workers that have run their task but not yet counted it =
+   number of executed tasks, and a worker is in the phase `found / running` exactly when it holds a task *)
+Theorem executor_counters :
+  forall (cap : N) (nw nsub : nat) (steps : list xstep),
+    let x := xrun cap nw nsub steps in
+    x_active x = N.of_nat (count ph_active (x_ph x)) /\
+    x_executed x + N.of_nat (count ph_uncounted (x_ph x)) = nlen (edone (x_e x)) /\
+    (forall w ph, nth_error (x_ph x) w = Some ph ->
+       (ph_holds ph = true <-> exists t, nth_error (erun (x_e x)) w = Some (Some t))).
+Proof. exact executor_counters_proof. Qed.
+Check executor_counters :
+  forall (cap : N) (nw nsub : nat) (steps : list xstep),
+    let x := xrun cap nw nsub steps in
+    x_active x = N.of_nat (count ph_active (x_ph x)) /\
+    x_executed x + N.of_nat (count ph_uncounted (x_ph x)) = nlen (edone (x_e x)) /\
+    (forall w ph, nth_error (x_ph x) w = Some ph ->
+       (ph_holds ph = true <-> exists t, nth_error (erun (x_e x)) w = Some (Some t))).
+Print Assumptions executor_counters.
+
+(* The capacity bound: under every interleaving (racing submitters included) no local queue ever holds more than
+   queue_capacity tasks and the global queue never more than 10000 *)
+Theorem executor_capacity_bound :
+  forall (cap : N) (nw nsub : nat) (steps : list xstep),
+    let x := xrun cap nw nsub steps in
+    (forall i q, nth_error (eqs (x_e x)) i = Some q -> nlen (qlocal q) <= cap) /\
+    nlen (eglob (x_e x)) <= GLOBAL_CAP.
+Proof. exact executor_capacity_proof. Qed.
+Check executor_capacity_bound :
+  forall (cap : N) (nw nsub : nat) (steps : list xstep),
+    let x := xrun cap nw nsub steps in
+    (forall i q, nth_error (eqs (x_e x)) i = Some q -> nlen (qlocal q) <= cap) /\
+    nlen (eglob (x_e x)) <= GLOBAL_CAP.
+Print Assumptions executor_capacity_bound.
+
+(* Admission: an undisturbed submit() (probe, then the push it decided on) in any state with at least one worker is
+   exactly Model.submit - worker next_worker mod n (round robin, next_worker + 1 wrapping at 2^64), its local queue
+   by priority if it has room, else the global queue by priority if it holds fewer than 10000, else rejected - and
+   the submission is recorded as accepted resp. rejected accordingly; phases and counters are untouched *)
+Theorem submit_admission :
+  forall (cap : N) (x : xexec) (t : task),
+    nth_error (x_subs x) 0 = Some SbIdle -> eqs (x_e x) <> [] ->
+    x_e (xsubmit cap x t) = snd (submit cap (x_e x) t) /\
+    x_acc (xsubmit cap x t) = (if fst (submit cap (x_e x) t) then x_acc x ++ [t] else x_acc x) /\
+    x_rej (xsubmit cap x t) = (if fst (submit cap (x_e x) t) then x_rej x else x_rej x ++ [t]) /\
+    x_ph (xsubmit cap x t) = x_ph x /\ x_active (xsubmit cap x t) = x_active x /\ x_executed (xsubmit cap x t) = x_executed x /\
+    nth_error (x_subs (xsubmit cap x t)) 0 = Some SbIdle.
+Proof. exact xsubmit_refines. Qed.
+Check submit_admission :
+  forall (cap : N) (x : xexec) (t : task),
+    nth_error (x_subs x) 0 = Some SbIdle -> eqs (x_e x) <> [] ->
+    x_e (xsubmit cap x t) = snd (submit cap (x_e x) t) /\
+    x_acc (xsubmit cap x t) = (if fst (submit cap (x_e x) t) then x_acc x ++ [t] else x_acc x) /\
+    x_rej (xsubmit cap x t) = (if fst (submit cap (x_e x) t) then x_rej x else x_rej x ++ [t]) /\
+    x_ph (xsubmit cap x t) = x_ph x /\ x_active (xsubmit cap x t) = x_active x /\ x_executed (xsubmit cap x t) = x_executed x /\
+    nth_error (x_subs (xsubmit cap x t)) 0 = Some SbIdle.
+Print Assumptions submit_admission.
+
+(* the race inside submit() is real in the model: two threads probe the same local queue with one free slot, the
+   second push_local fails and that submission is rejected (its task is dropped, never queued) *)
+Theorem submit_race_rejects :
+  let a := mkT 0 0 true in let b := mkT 1 0 true in
+  let x := xrun 1 1 2 [XProbe 0 a; XProbe 1 b; XPush 0; XPush 1] in
+  x_acc x = [a] /\ x_rej x = [b] /\ queued (x_e x) = [a].
+Proof. exact submit_race_proof. Qed.
+Check submit_race_rejects :
+  let a := mkT 0 0 true in let b := mkT 1 0 true in
+  let x := xrun 1 1 2 [XProbe 0 a; XProbe 1 b; XPush 0; XPush 1] in
+  x_acc x = [a] /\ x_rej x = [b] /\ queued (x_e x) = [a].
+Print Assumptions submit_race_rejects.
+
+(* is_idle() as written (active_tasks == 0 && total_queued() == 0), in every reachable state: if it returns true and
+   no worker is between find_task and active_tasks += 1, every accepted task has been executed; and once every
+   accepted task has been executed and no worker is between its increment and its decrement, it returns true
+   (the executor becomes idle after the last task finishes) *)
+Theorem is_idle_characterised :
+  forall (cap : N) (nw nsub : nat) (steps : list xstep),
+    let x := xrun cap nw nsub steps in
+    (x_is_idle x = true -> (forall w, nth_error (x_ph x) w <> Some PhFound) -> Permutation (edone (x_e x)) (x_acc x)) /\
+    (Permutation (edone (x_e x)) (x_acc x) -> (forall w ph, nth_error (x_ph x) w = Some ph -> ph_active ph = false) ->
+       x_is_idle x = true).
+Proof. exact is_idle_proof. Qed.
+Check is_idle_characterised :
+  forall (cap : N) (nw nsub : nat) (steps : list xstep),
+    let x := xrun cap nw nsub steps in
+    (x_is_idle x = true -> (forall w, nth_error (x_ph x) w <> Some PhFound) -> Permutation (edone (x_e x)) (x_acc x)) /\
+    (Permutation (edone (x_e x)) (x_acc x) -> (forall w ph, nth_error (x_ph x) w = Some ph -> ph_active ph = false) ->
+       x_is_idle x = true).
+Print Assumptions is_idle_characterised.
+
+(* ... and the excluded window exists: one accepted task, popped by the worker, active_tasks not yet incremented -
+   is_idle() is true although nothing has run (reproduced on the real executor through the hook: after the find_task
+   that takes the last task is_idle() returns true while the caller still holds the task) *)
+Theorem is_idle_window_exists :
+  let x := xrun 4 1 1 idle_window_steps in
+  x_is_idle x = true /\ x_acc x = [idle_window_task] /\ edone (x_e x) = [] /\ x_held x = [idle_window_task] /\
+  nth_error (x_ph x) 0 = Some PhFound.
+Proof. exact is_idle_window_proof. Qed.
+Check is_idle_window_exists :
+  let x := xrun 4 1 1 idle_window_steps in
+  x_is_idle x = true /\ x_acc x = [idle_window_task] /\ edone (x_e x) = [] /\ x_held x = [idle_window_task] /\
+  nth_error (x_ph x) 0 = Some PhFound.
+Print Assumptions is_idle_window_exists.
